@@ -199,7 +199,9 @@ func numberWant(text string) want {
 			neg := strings.HasPrefix(exp, "-")
 			zero := strings.Trim(mant, "-0.") == ""
 			if zero {
-				return want{v: cty.Zero}
+				// zero times an exponent outside the range spec.md obliges an
+				// implementation to support: zero or an error are both acceptable
+				return want{unspec: true}
 			}
 			if neg {
 				return want{unspec: true}
